@@ -8,6 +8,7 @@ package main
 import (
 	"encoding/json"
 	"fmt"
+	"path/filepath"
 	"regexp"
 	"sort"
 	"strings"
@@ -19,7 +20,7 @@ import (
 	"verif/harness/vlib"
 )
 
-var roles = []string{"unconnected", "child-of-dead-parents", "spouse-of-dead", "parent-of-dead-child", "shares-surname-with-dead", "shares-surname-sorts-first", "shares-place-with-dead", "spouse-of-dead-with-dead-child",
+var roles = []string{"unconnected", "child-of-dead-parents", "spouse-of-dead", "parent-of-dead-child", "shares-surname-with-dead", "shares-surname-sorts-first", "shares-place-with-dead", "spouse-of-dead-with-dead-child", "death-record-removed-after-first-publishing",
 	"no-birth-at-all", "buried-but-no-death", "two-names", "source-citation", "nickname-and-note", "birth-date-phrase", "birth-date-without-year", "birth-date-empty"}
 
 // person block of a living person with marker prefix mk (e.g. "Zq7L") in a role; variant changes all personal data (for the hide differential).
@@ -92,6 +93,9 @@ func (l living) lines(birthYear int) []string {
 	if l.role == "buried-but-no-death" {
 		out = append(out, "1 BURI", fmt.Sprintf("2 DATE %d Jul %d", 9+l.variant, birthYear+30), "2 PLAC "+place)
 	}
+	if l.role == "death-record-removed-after-first-publishing" {
+		out = append(out, "1 DEAT Y") // wrongly recorded; removed through the API between two publishings
+	}
 	out = append(out, fmt.Sprintf("1 NICK %snick%s", l.mk, v), fmt.Sprintf("1 NOTE %snote%s", l.mk, v), fmt.Sprintf("1 OCCU %soccu%s", l.mk, v), "2 DATE "+fmt.Sprint(birthYear+20+l.variant))
 	return out
 }
@@ -102,8 +106,15 @@ type kase struct {
 	Mask    int      `json:"mask"`
 	Jobs    int      `json:"jobs"`
 	Variant int      `json:"variant,omitempty"`
-	Prior   string   `json:"prior,omitempty"` // publish the same document object with this visibility first
+	Prior   string   `json:"prior,omitempty"`           // publish the same document object with this visibility first
+	CLI     bool     `json:"cli,omitempty"`             // through the built `gedcom publish` command instead of the library
+	As      string   `json:"living_as_typed,omitempty"` // cli: the -living value as typed ("" = flag not given: the default is placeholder)
 }
+
+var cliBinary = filepath.Join(vlib.VerifDir, ".build", "gedcom-bin-c17")
+
+// cliRefused is set by publish when the command did not accept its arguments (nothing published: nothing to leak)
+var cliRefused bool
 
 var deadMarkers = []string{"Zq7Dgiven1", "Zq7Dsurn1", "Zq7Dgiven2", "Zq7Dsurn2", "Zq7Dgiven3", "Zq7Dgiven4", "Zq7Dplace1"}
 
@@ -161,8 +172,27 @@ func publish(k kase, variant int) (*pub.MemWriter, [][]string, error) {
 	if err != nil {
 		panic(err)
 	}
+	cliRefused = false
+	if k.CLI {
+		w, refused, _ := pub.CLIPublish(cliBinary, text, k.As, k.Mask, k.Jobs)
+		cliRefused = refused
+		return w, markers, nil
+	}
 	if k.Prior != "" {
 		pub.Publish(doc, pub.Options(k.Mask, visibility(k.Prior)), k.Jobs, 0)
+	}
+	for i, role := range k.Roles {
+		if role == "death-record-removed-after-first-publishing" {
+			// publish once while the person is dead by record, then correct the record through the API
+			pub.Publish(doc, pub.Options(k.Mask, visibility(k.Living)), k.Jobs, 0)
+			ind, _ := doc.NodeByPointer(fmt.Sprintf("LIV%d", i+1)).(*gedcom.IndividualNode)
+			for _, c := range ind.Nodes() {
+				if c.Tag().Tag() == "DEAT" {
+					ind.DeleteNode(c)
+					break
+				}
+			}
+		}
 	}
 	w, perr := pub.Publish(doc, pub.Options(k.Mask, visibility(k.Living)), k.Jobs, 0)
 	return w, markers, perr
@@ -204,6 +234,9 @@ func judge(k kase) (sigs [][2]string, crashed int, files int) {
 	w, markers, err := publish(k, 0)
 	if err != nil {
 		add("publish-returns-error", err.Error())
+	}
+	if k.CLI && cliRefused {
+		return // the command did not accept its arguments and published nothing
 	}
 	pages := w.Sorted()
 	files = len(pages)
@@ -284,6 +317,7 @@ func judge(k kase) (sigs [][2]string, crashed int, files int) {
 	if k.Living != "show" && k.Prior == "" {
 		ks := k
 		ks.Living = "show"
+		ks.As = "show"
 		ws, _, _ := publish(ks, 0)
 		here := map[string]string{}
 		for _, p := range pages {
@@ -425,6 +459,18 @@ func cases(tier string) []kase {
 						out = append(out, kase{Roles: rs, Living: living, Mask: mask, Jobs: jobs, Prior: "show"})
 					}
 				}
+			}
+		}
+	}
+	// the command line: flags as a user types them (incl. spellings the library may refuse, and no -living at all)
+	for _, rs := range [][]string{{"spouse-of-dead"}, {"shares-place-with-dead"}, {"child-of-dead-parents", "parent-of-dead-child"}} {
+		for _, as := range []string{"hide", "placeholder", "", "Hide", "HIDE", "hide ", "Placeholder"} {
+			living := strings.ToLower(strings.TrimSpace(as))
+			if living == "" {
+				living = "placeholder"
+			}
+			for _, mask := range []int{63, 62, 61, 59, 1, 4, 2} {
+				out = append(out, kase{Roles: rs, Living: living, Mask: mask, Jobs: 1, CLI: true, As: as})
 			}
 		}
 	}
